@@ -4,15 +4,15 @@ _DELS = [OP_DEL_V, OP_DEL_E, OP_DEL_F, OP_DEL_C]
 PROPS["C02"] = dict(
   jobs=[
     dict(name="c02-k1", **_c02_common,
-         shards={"quick": op_shards([B_TET, B_LOWDIM], [0, 1, 2, 3], _DELS) + op_shards([B_TET2_FACE], [0], [OP_DEL_F])[:1],
+         shards={"quick": op_shards([B_TET], [0, 1, 2, 3], _DELS) + op_shards([B_LOWDIM], [0, 1, 2], _DELS) + op_shards([B_TET2_FACE], [0], [OP_DEL_F])[:1],
                  "thorough": op_shards([B_TET2_FACE, B_TET2_EDGE, B_TET2_VERTEX, B_TET3_RING, B_PRISM_PYR, B_TRI2, B_HEX], [0, 1, 2, 3], _DELS)},
          bounds="one deletion of every live vertex/edge/face/cell (symbolic selector, 8 per query) in each of the four (deferred x fast) modes, all bottom-up incidences on; "
                 "symbolic probe indices for the comparison with the reference closure/renumbering; bases quick: tetrahedron, low-dimensional mesh; thorough: 2 tets (face/edge/vertex), 3-tet ring, prism+pyramid, 2 triangles, hexahedron"),
     dict(name="c02-nobu", ll2c_flags=["--null-guard"], **_c02_common,
-         shards={"quick": [d for sub in (15, 10, 12) for d in _with(op_shards([B_TET], [0, 3], _DELS), {7: sub})] + _with(op_shards([B_LOWDIM], [0, 3], _DELS), {7: 15})
+         shards={"quick": [d for sub in (15, 10, 12) for d in _with(op_shards([B_TET], [0], _DELS) + op_shards([B_TET], [3], [OP_DEL_E, OP_DEL_F]), {7: sub})] + _with(op_shards([B_LOWDIM], [0], _DELS), {7: 15})
                         + _with(op_shards([B_TET], [1], [OP_DEL_E, OP_DEL_V]), {4: OP_DEL_F, 5: 0, 7: 10}) + _with(op_shards([B_TET], [1], [OP_DEL_V]), {4: OP_DEL_E, 5: 2, 7: 9})
                         + _with(op_shards([B_TET2_FACE], [1], [OP_DEL_F])[:1], {7: 12}) + _with(op_shards([B_TET2_FACE], [1], [OP_DEL_C]), {7: 10}),
-                 "thorough": [d for sub in (7, 9, 11, 13, 14, 1, 2, 4) for d in _with(op_shards([B_TET], [0, 1, 3], _DELS), {7: sub})]
+                 "thorough": [d for sub in (15, 10, 12) for d in _with(op_shards([B_TET], [3], [OP_DEL_V, OP_DEL_C]), {7: sub})] + _with(op_shards([B_LOWDIM], [3], _DELS), {7: 15}) + [d for sub in (7, 9, 11, 13, 14, 1, 2, 4) for d in _with(op_shards([B_TET], [0, 1, 3], _DELS), {7: sub})]
                            + [d for sub in (15, 10, 12) for d in _with(op_shards([B_TET2_FACE], [0, 3], _DELS), {7: sub})]},
          bounds="same with subsets of the bottom-up incidences disabled (before or after the base is built): the non-cached code paths of delete_*_core"),
     dict(name="c02-k2", **_c02_common,
